@@ -153,6 +153,22 @@ def sidePoint (s t p1 p2 : Pt) : SidePt :=
     | some x => .at ⟨p1.x, x⟩
   else .rotated
 
+/-- which branch of the estimate one side takes (coverage statistics of the driver only) -/
+def sideBranch (s t p1 p2 : Pt) : String :=
+  let go (a b c d mn mx : Rat) : String :=
+    let flip := b + d = 0
+    let d' := if flip then -d else d
+    if b = 0 ∧ d' = 0 then
+      (if (a < mn ∧ c < mn) ∨ (a > mx ∧ c > mx) then "on-line.outside" else "on-line.skip")
+    else
+      let x := (b * c + a * d') / (b + d')
+      let side := if flip then "flip" else if (0 < b ∧ 0 < d) ∨ (b < 0 ∧ d < 0) then "same-side"
+        else if b = 0 ∨ d = 0 then "one-on-line" else "opposite"
+      side ++ (if x < mn ∨ mx < x then ".clamped" else ".inner")
+  if p1.y = p2.y then go s.x (s.y - p1.y) t.x (t.y - p1.y) (rmin p1.x p2.x) (rmax p1.x p2.x)
+  else if p1.x = p2.x then go s.y (s.x - p1.x) t.y (t.x - p1.x) (rmin p1.y p2.y) (rmax p1.y p2.y)
+  else "rotated"
+
 /-- three-valued comparison `|s − xp| + |xp − t| < Σ |route legs|` -/
 abbrev Lt3 := Pt → Pt → Pt → List Pt → Option Bool
 
